@@ -738,6 +738,55 @@ func directC04(tt *testing.T, tape *core.Tape, tier string, r *RunResult) {
 			}
 		}
 	}
+	// ---- live: the client side of a still-open bidi call fails (its Receive
+	// rejects a response) while the handler is reading: the handler must not
+	// see a clean end of the request stream.
+	// (Not for gRPC over HTTP trailers: there a failed Receive first drains the
+	// body to reach the trailers, which by design waits for the handler, and
+	// this handler waits for the client - a deadlock of the two programs, not
+	// of the library.)
+	if rec.plan.Kind == KBidi && rec.proto != PGRPC {
+		for _, mode := range []string{"oversize", "cut"} {
+			p := *rec.plan
+			p.K = simhttp.DefaultKnobs()
+			p.HErr = nil
+			p.ReqMsgs = [][]byte{{1}, {2}}
+			p.RespMsgs = [][]byte{bytes.Repeat([]byte{'r'}, 40)}
+			p.Split = false
+			p.CProg = []COp{{Op: "send", Arg: 0}, {Op: "recvall"}, {Op: "closeresp"}}
+			p.CProgRcv = nil
+			p.HProg = []HOp{{Op: "recv"}, {Op: "send", Arg: 0}, {Op: "drain"}}
+			sc2 := *rec.sc
+			sc2.Clients = append([]ClientCfg(nil), rec.sc.Clients...)
+			if mode == "oversize" {
+				sc2.Clients[0].ReadMax = 8
+			} else {
+				p.K.DownCutAt = 7
+				p.K.DownCutErr = io.ErrUnexpectedEOF
+			}
+			sc2.Calls = []*CallPlan{&p}
+			w, st, panics := subRun(&sc2, core.ReplayTape(nil))
+			deliveries++
+			r.Steps += w.S.Steps
+			where := "client Receive fails (" + mode + ") while the request stream is still open"
+			if len(panics) > 0 {
+				addV("client-failure/panic", where+": "+panics[0])
+				continue
+			}
+			if st != core.Done {
+				addV("client-failure/hang", where+": "+w.hangReport())
+				continue
+			}
+			o := w.Obs[0]
+			r.Probes["client_failures_with_open_request"]++
+			if o.FinalSet && o.Final == nil {
+				addV("client-failure/success", where+": the call ended in success")
+			}
+			if o.H.RecvEndSet && (o.H.RecvEnd == nil || errors.Is(o.H.RecvEnd, io.EOF)) {
+				addV("client-failure/handler-saw-clean-end", where+fmt.Sprintf(": the handler saw a clean end of the request stream after %d message(s) although the client never closed its side", len(o.H.Recv)))
+			}
+		}
+	}
 	r.Probes["deliveries"] += deliveries
 	r.Probes["exchanges"]++
 	if complete {
